@@ -443,7 +443,8 @@ func runC06(w *World, r *Report) {
 	r.Min("R4", 8)
 	r.Min("R5", 1)
 	r.Min("R6", 2)
-	r.Min("R7", 10)
+	c06NextExpiry(w, r)
+	r.Min("R7", 11)
 	r.Min("R8", 6)
 }
 
@@ -454,4 +455,61 @@ func hasShared(rels []Rel) bool {
 		}
 	}
 	return false
+}
+
+// c06NextExpiry: the TTL watcher wakes up at the earliest expiry of ALL watched
+// requests (a minimum with no filter), never later than one default TTL.
+func c06NextExpiry(w *World, r *Report) {
+	f := w.Fn(pkgQProc, "RequestWatcher.recalculateNextExpireAt")
+	if f == nil {
+		r.Undec("R7", "recalculateNextExpireAt", token.NoPos, "function not found")
+		return
+	}
+	var stored ssa.Value
+	for _, c := range CallsIn(f, false, "atomic.Value).Store") {
+		if strings.HasSuffix(Path(c.Common().Args[0]), "watcher.nextExpireAt") {
+			stored = c.Common().Args[1]
+		}
+	}
+	phi, ok := peel(stored).(*ssa.Phi)
+	if !ok {
+		r.Undec("R7", "recalculateNextExpireAt/stored", f.Pos(), "the value stored into nextExpireAt is not a loop-carried minimum: %s", trunc(Path(stored), 80))
+		return
+	}
+	isEntry := func(v ssa.Value) bool {
+		e, ok := v.(*ssa.Extract)
+		if !ok || e.Index != 2 {
+			return false
+		}
+		n, ok := e.Tuple.(*ssa.Next)
+		return ok && strings.HasSuffix(Path(n.Iter), "range(param:watcher.requestsExpireAt)")
+	}
+	okInit, okMin, nEntry := false, true, 0
+	var extra []string
+	for i, e := range phi.Edges {
+		switch {
+		case e == ssa.Value(phi):
+		case isEntry(e):
+			nEntry++
+			for _, c := range CondsOf(phi.Block().Preds[i]) {
+				if x, isX := c.V.(*ssa.Extract); isX && x.Index == 0 {
+					continue // range has a next element
+				}
+				rel, isRel := NormCond(c)
+				if isRel && rel.Op == "<" && isEntry(rel.L) && rel.R == ssa.Value(phi) {
+					continue
+				}
+				if isRel && rel.Op == ">" && isEntry(rel.R) && rel.L == ssa.Value(phi) {
+					continue
+				}
+				okMin = false
+				extra = append(extra, trunc(Path(c.V), 70))
+			}
+		default:
+			p := Path(e)
+			okInit = p == "(time.Time).Add((clock.Clock).Now(param:watcher.clock), param:watcher.defaultTTL)"
+		}
+	}
+	r.Check(okInit && okMin && nEntry == 1, "R7", "recalculateNextExpireAt/minimum-over-all-entries", phi.Pos(),
+		"next wake-up = min(now+defaultTTL, every watched expiry): starts at now+defaultTTL=%v, replaced by an entry exactly when the entry is earlier (extra conditions %v)", okInit, extra)
 }
